@@ -60,6 +60,12 @@ fn check_pair(si: usize, b: u8) -> Result<(), String> {
         real_action(a),
     );
     let got = state_change(real_state(s), b);
+    // The Utf8 pseudo-state is not part of Williams' machine and the parser never looks its row up
+    // (it hands the bytes of a character to its UTF-8 decoder): what `state_change` answers there is
+    // not pinned by the property. It must not panic; nothing else is asserted.
+    if s == St::Utf8 {
+        return Ok(());
+    }
     if got != want {
         return Err(format!(
             "state_change({:?}, {:#04x}) = {:?}, reference machine gives {:?}",
@@ -102,7 +108,7 @@ fn run(args: &Args, rep: &mut Report) {
         acc.samples.push(json!({"state": format!("{:?}", vt::ALL_STATES[w]), "byte": 0x1b}));
         acc
     });
-    rep.add("transition-table", true, "16 states x 256 bytes", accs);
+    rep.add("transition-table", true, "16 states x 256 bytes (the row of the Utf8 pseudo-state, which the parser never consults, is only required not to panic)", accs);
 
     // B
     let full = gen::as_symbols(gen::ALPHA_FULL);
